@@ -76,7 +76,7 @@ func genCase(t *rapid.T) Case {
 	n := rapid.IntRange(3, 25).Draw(t, "n")
 	for i := 0; i < n; i++ {
 		op := Op{Client: rapid.IntRange(0, c.Clients-1).Draw(t, "client")}
-		op.Kind = rapid.SampledFrom([]string{"get", "get", "set", "set", "setbad", "settyped", "settyped", "update", "updatebad", "subscribe", "rawget", "set2", "update2", "subscribe2", "stats", "trace", "unsubscribe", "subscribe", "subscribe2", "terminate2", "stalecancel2", "unsubscribe", "brokensub", "churnsubs"}).Draw(t, "kind")
+		op.Kind = rapid.SampledFrom([]string{"get", "get", "set", "set", "setbad", "settyped", "settyped", "update", "updatebad", "subscribe", "rawget", "set2", "update2", "subscribe2", "stats", "trace", "unsubscribe", "subscribe", "subscribe2", "terminate2", "stalecancel2", "unsubscribe", "brokensub", "churnsubs", "dupidsub"}).Draw(t, "kind")
 		switch op.Kind {
 		case "set", "update", "set2", "update2":
 			op.Value = rapid.Int32Range(0, 1<<30).Draw(t, "v")
@@ -220,10 +220,34 @@ func checkCase(c Case) error {
 	model := int32(10) // Activate initialises the property with UpdateDelay(10)
 	twinGone := false  // the second object has been removed from its service
 	broken := 0        // subscribers whose connection is broken
+	// raw subscribers of the first object's delay which picked an identifier
+	// another connection uses already: a registration which is acknowledged is
+	// served like any other (one which is refused is simply not there)
+	type rawSub struct {
+		raw      *netkit.RawClient
+		from     int
+		expected []int32
+	}
+	var rawSubs []*rawSub
 	rejected, typed, updates := 0, 0, 0
 
 	// every subscriber has exactly the accepted writes since it subscribed
 	checkEvents := func(step int, why string) error {
+		for ri, rs := range rawSubs {
+			// a barrier on the subscriber's own connection: what was emitted before is in
+			if _, ok := rs.raw.CallWait(sid, 1, 2, binary.LittleEndian.AppendUint32(nil, 1), bound); !ok {
+				return vt.Violationf("C14:get-error", "step %d: barrier call of a raw subscriber was not answered", step)
+			}
+			var got []int32
+			for _, f := range rs.raw.Frames()[rs.from:] {
+				if f.Type == netkit.Event && f.Service == sid && f.Object == 1 && f.Action == 101 && len(f.Payload) == 4 {
+					got = append(got, int32(binary.LittleEndian.Uint32(f.Payload)))
+				}
+			}
+			if fmt.Sprint(got) != fmt.Sprint(rs.expected) {
+				return vt.Violationf("C14:events", "step %d (%s): raw subscriber %d, whose registration (an identifier another connection uses too) was acknowledged, received %v, the accepted writes are %v", step, why, ri, got, rs.expected)
+			}
+		}
 		for ci, cl := range clients {
 			all := append([]*subscriber{}, cl.subs...)
 			if !twinGone {
@@ -254,6 +278,9 @@ func checkCase(c Case) error {
 	}
 	accepted := func(v int32) {
 		model = v
+		for _, rs := range rawSubs {
+			rs.expected = append(rs.expected, v)
+		}
 		for _, cl := range clients {
 			for _, s := range cl.subs {
 				s.expected = append(s.expected, v)
@@ -417,6 +444,33 @@ func checkCase(c Case) error {
 				sb.cancel()
 			}
 			vt.Label("subscribers-came-and-left")
+		case "dupidsub":
+			// two more connections register for the change events with the same
+			// identifier (clients which number their registrations from one do)
+			if len(rawSubs) >= 4 {
+				continue
+			}
+			for k := 0; k < 2; k++ {
+				dc, err := netkit.Dial(env.Addr)
+				if err != nil || !dc.Authenticate("u", "t", bound) {
+					return vt.Violationf("C14:setup", "raw client: %v", err)
+				}
+				defer dc.Close()
+				reg := binary.LittleEndian.AppendUint32(nil, 1)
+				reg = binary.LittleEndian.AppendUint32(reg, 101)
+				reg = binary.LittleEndian.AppendUint64(reg, uint64(990000+i))
+				from := len(dc.Frames())
+				f, ok := dc.CallWait(sid, 1, 0, reg, bound)
+				if !ok {
+					return vt.Violationf("C14:subscribe-error", "step %d: registerEvent(delay) was not answered", i)
+				}
+				if f.Type == netkit.Reply {
+					rawSubs = append(rawSubs, &rawSub{raw: dc, from: from})
+					vt.Label(fmt.Sprintf("registration-with-an-identifier-in-use=acknowledged(%d)", k))
+				} else {
+					vt.Label("registration-with-an-identifier-in-use=refused")
+				}
+			}
 		case "brokensub":
 			// one more connection registers for the change events and then stops
 			// listening (its reading side is shut down: what the server writes to
